@@ -239,7 +239,10 @@ let verdict case impl =
           mis-framing case the corrupted length field can swallow exactly one whole reply frame and leave
           the stream aligned -- the reply is lost, the connection is healthy, no driver can notice.  Such a
           hang is excused iff the mock's trace shows the connection alive to the end and the model's run of
-          that trace has the request still pending on an open connection. *)
+          that trace has the request still pending on an open connection WHOSE READER IS FRAME-ALIGNED at
+          the end (empty read buffer).  A reader stuck inside an over-long frame
+          (non-empty buffer: every later byte, keepalive replies included, disappears into that frame) is
+          the property's "stops answering keep-alives" case and is NOT excused. *)
        let excused_hang m =
          misframing && seen.(m) = 1 &&
          List.exists2 (fun t ms ->
@@ -247,6 +250,7 @@ let verdict case impl =
            && not (List.exists (function TFin | TRst | TClose -> true | _ -> false) t)
            && (let st = simulate None t in
                (match st.c_status with Open -> true | _ -> false)
+               && st.c_rbuf = []
                && outcome_of (n_of_rid m) st.c_done = None)) conns per_conn in
        let hangs = List.filter (fun i -> res_arr.(i - 1) = "hang") (List.init nres (fun i -> i + 1)) in
        let unexcused = List.filter (fun m -> not (excused_hang m)) hangs in
@@ -291,63 +295,76 @@ let verdict case impl =
        if fu = "err" && live_conn then add "session-does-not-serve-follow-up";
        (* the kernel-checked conjunction (C10_accept_sound): must hold before any `ok` *)
        if !viol = [] && not !realigned && not excused && not (accept_obs px idem conns (List.map cres_of res)) then add "property-predicate-rejects-the-observation";
-       (* a broken correspondence while the runner's own runtime was starved is a counted not-run *)
-       let starved v = if stall >= 200 && starts_with "diff" v then Printf.sprintf "ok skipped runner-starved-%dms (%s)" stall (String.sub v 0 (min 60 (String.length v))) else v in
-       starved @@
+       (* A broken correspondence found while the runner's own runtime was starved (stall >= 200 ms) is a
+          counted not-run ONLY when it has one of the shapes starvation explains:
+            (P) the pool log order (events of different connection tasks of the mock, logged late);
+            (K) a spurious keepalive timeout / a close that did not reach the mock in time: the case has a
+                keepalive in its trace and the model agrees with every result once each
+                err:broken.KeepaliveTimeout is taken out of the comparison.
+          Every other diff stays a diff; a viol is never converted. *)
+       let starved_skip why = Printf.sprintf "ok skipped runner-starved-%dms (%s)" stall why in
+       let has_ka = List.exists (List.exists (function TIn (_, _, true) -> true | _ -> false)) conns in
        match !viol with
        | v :: _ -> "viol " ^ v
        | [] ->
-         if List.exists (fun (_, es) -> not (pool_accept es)) pools then "diff pool-events-are-not-a-run-of-the-pool-machine" else
+         if List.exists (fun (_, es) -> not (pool_accept es)) pools then
+           (if stall >= 200 then starved_skip "diff pool-events-are-not-a-run-of-the-pool-machine"
+            else "diff pool-events-are-not-a-run-of-the-pool-machine") else
          if fu <> "ok" then "diff follow-up-failed-and-no-live-pool-connection-was-observed-at-the-mock" else
          (* ---- 2. does some admissible run of the model give exactly these outcomes? ---- *)
          let independent = Array.for_all (fun c -> c <= 1) seen in
          (* requests the mock never saw: a non-idempotent one (no retry) was still in the channel when the
             router ended -> the connection's ROOT CAUSE (C10_root_cause: one error per connection, handlers and
             drained tasks alike), or it was refused after close() -> ChannelError, or it found no connection ->
-            the pool's error.  The root causes are those of the connections that broke in this case (model). *)
+            the pool's error.  Unseen requests are not part of any model run (they are in no trace): this is a
+            CLASS-SET check against the union of the root causes of all connections that broke in this case
+            (every delivered-prefix candidate), not a run comparison. *)
          let root_classes =
            List.concat_map (fun t ->
              List.concat_map (fun (st, _) ->
                match st.c_status with
                | Broken e | TearingDown e | Draining e -> classes_of_err e
                | Open -> []) (candidates t)) conns in
-         let unseen_ok = ref true in
-         for m = 1 to nres do
-           if seen.(m) = 0 then begin
-             match String.split_on_char ':' res_arr.(m - 1) with
-             | ["cancelled"] -> ()
-             | ["err"; c] when c = "pool" || c = "broken.ChannelError" -> ()
-             | ["err"; c] when (not idem) && List.mem c root_classes -> ()
-             | ["err"; c] when idem && (starts_with "broken." c) -> ()
-             | _ -> unseen_ok := false
-           end
-         done;
-         let conn_agrees t ms =
-           seq_exists (fun (st, skipped) ->
-             skipped = 0 &&
-             List.for_all (fun m ->
-               match expect_of_outcome px idem (outcome_of (n_of_rid m) st.c_done) with
-               | Some e -> matches m e res_arr.(m - 1)
-               | None -> matches m (ErrIn ["-"]) res_arr.(m - 1) (* only "cancelled" *)
-                         || (res_arr.(m - 1) = "hang" && excused_hang m)) ms)
-             (candidates_seq t) in
-         let model_agrees =
+         let agrees relax =
+           let ka_out r = relax && r = "err:broken.KeepaliveTimeout" in
+           let matches m e r = ka_out r || matches m e r in
+           let unseen_ok = ref true in
+           for m = 1 to nres do
+             if seen.(m) = 0 && not (ka_out res_arr.(m - 1)) then begin
+               match String.split_on_char ':' res_arr.(m - 1) with
+               | ["cancelled"] -> ()
+               | ["err"; c] when c = "pool" || c = "broken.ChannelError" -> ()
+               | ["err"; c] when (not idem) && List.mem c root_classes -> ()
+               | ["err"; c] when idem && (starts_with "broken." c) -> ()
+               | _ -> unseen_ok := false
+             end
+           done;
+           let conn_agrees t ms =
+             seq_exists (fun (st, skipped) ->
+               (skipped = 0 || relax) &&
+               List.for_all (fun m ->
+                 match expect_of_outcome px idem (outcome_of (n_of_rid m) st.c_done) with
+                 | Some e -> matches m e res_arr.(m - 1)
+                 | None -> matches m (ErrIn ["-"]) res_arr.(m - 1) (* only "cancelled" *)
+                           || (res_arr.(m - 1) = "hang" && excused_hang m)) ms)
+               (candidates_seq t) in
            if independent then List.for_all2 conn_agrees conns per_conn && !unseen_ok
            else
              !unseen_ok &&
              List.exists (fun cands ->
-               List.for_all (fun (_, sk) -> sk = 0) cands &&
+               (relax || List.for_all (fun (_, sk) -> sk = 0) cands) &&
                (let finals = List.map fst cands in
                 let ok = ref true in
                 for m = 1 to nres do
                   if seen.(m) > 0 && not (matches m (expectation_multi px finals m) res_arr.(m - 1)) then ok := false
                 done; !ok))
                (product (List.map candidates conns)) in
+         let model_agrees = agrees false in
          if model_agrees then "ok"
          else begin
            let finals = List.map (fun t -> simulate None t) conns in
            let skipped = List.fold_left (fun a t -> a + int_of_nat (skipped_labels (conn_init false) (labels_of None t))) 0 conns in
-           Printf.sprintf "diff skipped-labels=%d model=%s" skipped
+           let d = Printf.sprintf "diff skipped-labels=%d model=%s" skipped
              (String.concat "," (List.mapi (fun i _ ->
                 if seen.(i + 1) = 0 then "err:pool/ChannelError/root-cause"
                 else if seen.(i + 1) = 1 then
@@ -355,7 +372,9 @@ let verdict case impl =
                    ignore st;
                    let o = List.fold_left (fun acc st -> match acc with Some _ -> acc | None -> outcome_of (n_of_rid (i + 1)) st.c_done) None finals in
                    match expect_of_outcome px idem o with Some e -> show e | None -> "pending")
-                else show (expectation_multi px finals (i + 1))) res))
+                else show (expectation_multi px finals (i + 1))) res)) in
+           if stall >= 200 && has_ka && List.mem "err:broken.KeepaliveTimeout" res && agrees true
+           then starved_skip (String.sub d 0 (min 60 (String.length d))) else d
          end)
   | _ -> "error unknown-case"
 
